@@ -26,6 +26,7 @@ use datafusion::logical_expr::LogicalPlan;
 use datafusion::optimizer::optimizer::Optimizer;
 use datafusion::optimizer::OptimizerRule;
 use datafusion::prelude::*;
+use futures::FutureExt;
 use h_util::{arg, json_str, Rng};
 use refsql_gen::*;
 
@@ -405,10 +406,32 @@ fn witnesses() -> Vec<(&'static str, Vec<Tab>, Q)> {
     let t5 = Tab { types: vec![Ty::Int, Ty::Int], parts: 1, rows: vec![vec![iv(1), iv(1)], vec![iv(2), V::Null]] };
     let q5 = Q::Group(vec![], vec![(Agg::CountStar, E::Lit(V::I(1), Ty::Int))], Some(E::Lit(V::B(false), Ty::Bool)), Box::new(Q::Table(0)));
     w.push(("witness_having_const", vec![t5], q5));
+    // correlated NOT IN: the null-aware anti join looks for NULLs in the whole subquery input, ignoring the correlation filter
+    let t8a = Tab { types: vec![Ty::Int, Ty::Bool, Ty::Int], parts: 1, rows: vec![vec![V::Null, V::B(true), iv(0)]] };
+    let t8b = Tab { types: vec![Ty::Int, Ty::Int], parts: 1, rows: vec![vec![iv(0), iv(2)], vec![iv(2), iv(3)], vec![V::Null, V::Null], vec![iv(0), iv(1)], vec![V::Null, iv(3)]] };
+    let sub8 = Q::Project(vec![E::Col(0, 0)], Box::new(Q::Filter(E::Cmp("<>", bx(E::Col(0, 0)), bx(E::Col(1, 0))), Box::new(Q::Table(0)))));
+    let q8 = Q::Project(vec![E::Col(0, 0), E::Col(0, 1)], Box::new(Q::Filter(E::InSub(true, bx(E::Col(0, 1)), Box::new(sub8)), Box::new(Q::Table(1)))));
+    w.push(("witness_correlated_not_in", vec![t8a, t8b], q8));
+    // stacked filters over a projection of a self join (two columns named c0) when push_down_filter does not merge them
+    let t9 = Tab { types: vec![Ty::Int, Ty::Bool], parts: 2, rows: vec![
+        vec![iv(2), V::B(false)], vec![iv(3), V::B(true)], vec![iv(1), V::B(false)], vec![iv(2), V::Null], vec![iv(2), V::B(true)], vec![iv(1), V::B(false)]] };
+    let on9 = E::And(bx(E::Cmp("=", bx(E::Col(0, 1)), bx(E::Col(0, 3)))), bx(E::Col(0, 3)));
+    let p9 = E::Cmp("<=", bx(E::Between(false, bx(E::Col(0, 0)), bx(E::Lit(V::Null, Ty::Int)), bx(E::Col(0, 2)))),
+        bx(E::Or(bx(E::InList(true, bx(E::Col(0, 0)), vec![E::Col(0, 0)])), bx(E::IsNull(true, bx(E::Col(0, 2)))))));
+    let j9 = Q::Filter(p9, Box::new(Q::Join(JK::Inner, on9, Box::new(Q::Table(0)), Box::new(Q::Table(0)))));
+    let q9 = Q::Group(vec![E::Col(0, 0)], vec![(Agg::Count, E::Col(0, 2)), (Agg::CountDistinct, E::Col(0, 0))], None, Box::new(j9));
+    w.push(("witness_stacked_filters", vec![t9], q9));
+    // ORDER BY .. LIMIT 0: Sort with fetch = 0 when eliminate_limit is not in the rule set
+    let t7 = Tab { types: vec![Ty::Int, Ty::Int], parts: 1, rows: vec![vec![iv(1), iv(1)], vec![iv(2), V::Null]] };
+    let q7 = Q::Limit(0, Some(0), Box::new(Q::Sort(vec![(E::Col(0, 0), false, true)], Box::new(Q::Table(0)))));
+    w.push(("witness_order_limit0", vec![t7], q7));
     w
 }
 
 // ---------------------------------------------------------------- one case
+fn panic_msg(p: &Box<dyn std::any::Any + Send>) -> String {
+    p.downcast_ref::<String>().cloned().or_else(|| p.downcast_ref::<&str>().map(|s| s.to_string())).unwrap_or_default()
+}
 struct Variant { name: String, rules: Vec<Rule> }
 fn variants() -> Vec<Variant> {
     let all = Optimizer::new().rules;
@@ -432,8 +455,12 @@ async fn run_case(ctx: &SessionContext, sql: &str, q: &Q, explain: bool) -> Resu
     let mut schema_bad: Vec<String> = vec![];
     for v in variants() {
         let opt = Optimizer::with_rules(v.rules.clone());
-        match opt.optimize(analyzed.clone(), &state, |_, _| {}) {
-            Err(e) => res.push((v.name, Err(format!("optimize: {e}")))),
+        let optimized = match catch_unwind(AssertUnwindSafe(|| opt.optimize(analyzed.clone(), &state, |_, _| {}))) {
+            Ok(r) => r.map_err(|e| format!("optimize: {e}")),
+            Err(p) => Err(format!("panic: optimize: {}", panic_msg(&p))),
+        };
+        match optimized {
+            Err(e) => res.push((v.name, Err(e))),
             Ok(p) => {
                 let s = lschema(&p);
                 if !same_names_types(&s0, &s) {
@@ -442,8 +469,14 @@ async fn run_case(ctx: &SessionContext, sql: &str, q: &Q, explain: bool) -> Resu
                 let idx = match plans.iter().position(|(x, _)| *x == p) {
                     Some(i) => i,
                     None => {
-                        if explain { eprintln!("--- {} (plan #{})\n{}", v.name, plans.len(), p.display_indent()); }
-                        let o = run_plan(&state, &p).await;
+                        if explain {
+                            eprintln!("--- {} (plan #{})\n{}", v.name, plans.len(), p.display_indent());
+                            if let Ok(pp) = state.query_planner().create_physical_plan(&p, &state).await { eprintln!("  physical:\n{}", datafusion::physical_plan::displayable(pp.as_ref()).indent(false)); }
+                        }
+                        let o = match AssertUnwindSafe(run_plan(&state, &p)).catch_unwind().await {
+                            Ok(o) => o,
+                            Err(pn) => Out::Err(format!("panic: {}", panic_msg(&pn))),
+                        };
                         plans.push((p, o));
                         plans.len() - 1
                     }
